@@ -362,7 +362,15 @@ fn gen_rat_small(rng: &mut Rng, kind: u64) -> Rat {
     }
 }
 const KIND_NAMES: [&str; 5] = ["small-int", "fraction", "big-fraction", "dyadic", "special"];
-const SHAPES: [&str; 12] = ["general", "z-real", "z-imag", "w-real", "w-imag", "w=z", "w=conj-z", "w=-z", "same-real", "same-imag", "w=i*z", "z=0"];
+const SHAPES: [&str; 13] = ["general", "z-real", "z-imag", "w-real", "w-imag", "w=z", "w=conj-z", "w=-z", "same-real", "same-imag", "w=i*z", "z=0", "w-on-unit-circle"];
+/// Pythagorean triples: (a/c, b/c) lies exactly on the unit circle, off the axes
+const PYTH: [(i64, i64, i64); 8] = [(3, 4, 5), (5, 12, 13), (8, 15, 17), (7, 24, 25), (20, 21, 29), (9, 40, 41), (12, 35, 37), (28, 45, 53)];
+fn unit_q(rng: &mut Rng) -> P {
+    let (a, b, c) = *rng.pick(&PYTH);
+    let sg = |rng: &mut Rng| if rng.bool() { 1i128 } else { -1 };
+    let (x, y) = (Rat::new(sg(rng) * a as i128, c as i128), Rat::new(sg(rng) * b as i128, c as i128));
+    if rng.bool() { (x, y) } else { (y, x) }
+}
 
 /// impose one of the structural shapes of the quantifier on (z, w)
 fn shape_q(shape: usize, z: &mut P, w: &mut P) {
@@ -390,6 +398,7 @@ fn random_exact_pair(st: &mut Stats, rng: &mut Rng) {
     let r = gen_rat(rng, kind);
     let shape = pick_shape(rng);
     shape_q(shape, &mut z, &mut w);
+    if shape == 12 { w = unit_q(rng); }
     exact_pair(st, &format!("{}/{}", KIND_NAMES[kind as usize], SHAPES[shape]), z, w, r);
 }
 fn random_exact_triple(st: &mut Stats, rng: &mut Rng) {
@@ -400,8 +409,10 @@ fn random_exact_triple(st: &mut Stats, rng: &mut Rng) {
     let r = gen_rat_small(rng, kind);
     let shape = pick_shape(rng);
     shape_q(shape, &mut z1, &mut z2);
+    if shape == 12 { z2 = unit_q(rng); }
     let s2 = pick_shape(rng);
     if s2 != 11 { shape_q(s2, &mut z2, &mut z3); }
+    if s2 == 12 { z3 = unit_q(rng); }
     exact_triple(st, &format!("{}/{}+{}", KIND_NAMES[kind as usize], SHAPES[shape], SHAPES[s2]), z1, z2, z3, r);
 }
 
@@ -683,8 +694,8 @@ fn gen_f(rng: &mut Rng, kind: u64) -> f64 {
         _ => { let v = if rng.bool() { clamp_mag(1e100 * (1.0 - rng.unit() * 0.9)) } else { clamp_mag(1e-100 * (1.0 + rng.unit() * 9.0)) }; if rng.bool() { v } else { -v } }
     }
 }
-const F_SHAPES: [&str; 17] = ["general", "z-real", "z-imag", "w-real", "w-imag", "w=z", "w=conj-z", "w=-z", "same-real", "same-imag", "w=i*z", "z=0",
-    "cancel-real-part-of-product", "cancel-imag-part-of-product", "w-few-ulps-from-z", "signed-zero-parts", "mixed-kinds"];
+const F_SHAPES: [&str; 18] = ["general", "z-real", "z-imag", "w-real", "w-imag", "w=z", "w=conj-z", "w=-z", "same-real", "same-imag", "w=i*z", "z=0",
+    "cancel-real-part-of-product", "cancel-imag-part-of-product", "w-few-ulps-from-z", "signed-zero-parts", "mixed-kinds", "w-on-unit-circle"];
 
 fn nudge(rng: &mut Rng, x: f64) -> f64 {
     if x == 0.0 { return x; }
@@ -709,6 +720,13 @@ fn shape_f(rng: &mut Rng, shape: usize, z: &mut Cmplx, w: &mut Cmplx) {
         14 => { let c = Cmplx::new(nudge(rng, z.real), nudge(rng, z.imag)); if in_range(c.real) && in_range(c.imag) { *w = c; } }
         15 => { if rng.bool() { z.real = if rng.bool() { 0.0 } else { -0.0 }; } else { z.imag = if rng.bool() { 0.0 } else { -0.0 }; }
                 if rng.bool() { w.real = if rng.bool() { 0.0 } else { -0.0 }; } else { w.imag = if rng.bool() { 0.0 } else { -0.0 }; } }
+        17 => { // off-axis points of the unit circle (squared modulus exactly or almost exactly 1), optionally times a power of two
+            let (a, b, c) = *rng.pick(&PYTH);
+            let (mut x, mut y) = if rng.bool() { (a as f64 / c as f64, b as f64 / c as f64) } else { (a as f64 / 5.0 / (c as f64 / 5.0), b as f64 / 5.0 / (c as f64 / 5.0)) };
+            if rng.bool() { std::mem::swap(&mut x, &mut y); }
+            if rng.bool() { x = -x; } if rng.bool() { y = -y; }
+            let k = if rng.chance(0.7) { 0 } else { rng.int(-40, 40) as i32 };
+            *w = Cmplx::new(x * 2f64.powi(k), y * 2f64.powi(k)); }
         _ => {}
     }
 }
